@@ -57,7 +57,10 @@ THEOREMS = {
                                 ("BS.Props.C10", "BS.Props.C10.read_n_of_any_range"),
                                 ("BS.Props.C10", "BS.Props.C10.bucketMeans_length"),
                                 ("BS.Props.C10", "BS.Props.C10.at_most_2n")]),
-    "C11": (["BS.Props.C11", "BS.Props.C10"], [("BS.Props.C11", "BS.Props.C11.estimate_total"),
+    "C11": (["BS.Props.C11", "BS.Props.C10", "BS.Props.C11Caches"], [("BS.Props.C11Caches", "BS.Props.C11.read_n_through_caches"),
+                                ("BS.Props.C11Caches", "BS.Props.C11.level_selection_total"),
+                                ("BS.Props.C11Caches", "BS.Props.C11.estimate_total_for_any_seek"),
+                                ("BS.Props.C11", "BS.Props.C11.estimate_total"),
                                 ("BS.Props.C11", "BS.Props.C11.unreachable_arm"),
                                 ("BS.Props.C10", "BS.Props.C10.sampler_is_bucket_means"),
                                 ("BS.Props.C10", "BS.Props.C10.at_most_2n")]),
@@ -195,7 +198,7 @@ LEVEL_TEXT = {
  "C08": "Kernel-checked at full strength on the model, for the harness's integer resampler: create a series with any payload size, header and any cache configuration (distinct bucket sizes 1 <= B <= 2^32), make ANY sequence of append attempts with timestamps < 2^64: no panic, and for EVERY level the cache data file is byte for byte header ++ encode(bucketMeans B history) and its index canonical (caches_exact_in_one_session, via the invariant cacheProcess_inv lifted to all reachable states by pushAll_inv); a cache created over pre-existing data of any length holds exactly the bucket means with the trailing bucket only in the accumulator (cache_created_over_existing_data), and further appends keep it exact (appending_keeps_caches_exact); bucketMeans is characterised entry by entry (bucketMeans_get/_length). Sums are u128/u64 as in the code: no overflow is part of the theorem. The generic ResampleState contract of other resamplers is an assumption.",
  "C09": "Kernel-checked on the model (integer resampler): a cache that is missing, intact or torn at ANY byte, with its index in any legitimate prior state, is brought back on open to exactly header ++ encode(bucketMeans B history) with the open bucket in the accumulator - for every line count of the source, every 1 <= B <= 2^32, every payload size and timestamp magnitude (cache_restored_on_open; the resume point line_pos is exact for every line number: resume_point_exact); one round of 'any append attempts, close, builder.open with the same configuration' re-establishes the invariant for the source and EVERY cache level and leaves source and intact cache files byte-identical, so any mix of appends and reopens equals one uninterrupted session (append_close_reopen_keeps_caches); after a crash (source cut at any byte, caches absent/torn relative to the surviving lines) the open repairs source and caches (reopen_repairs_source_and_caches). NOT a theorem: a cache that ran AHEAD of a torn source (never a panic, at most the straddling bucket deviates) - that clause is carried by the differential check (source torn with the cache ahead, B in {1,2,3,4,10}), as is a cache data file present with its index deleted. Hypothesis TailClean for payload < 4 (known finding marker-tail).",
  "C10": "Kernel-checked on the model: read_n without caches, for EVERY pair of bounds and n >= 1 (files up to 2^32 lines): uniform bucket means with one bucket size b >= 1 of exactly the lines a full read of the range returns, at most 2n of them, no overflow (read_n_of_any_range, sampler_is_bucket_means, at_most_2n). The resampler is the harness's integer resampler over the library's own u64 ResampleState; the generic resampler contract is an assumption.",
- "C11": "Kernel-checked: estimate_lines cannot fault and its unreachable! arm is unreachable for any index contents (estimate_total, unreachable_arm); the read tail after level selection is C10's. That the selected level is one of the stored levels is by construction of read_n; transparency w.r.t. the decoded cache content, strictly increasing in-bounds timestamps and <= 2n are checked differentially against every stored level (judge ~readnc), incl. caches longer in bytes than finer ones.",
+ "C11": "Kernel-checked at full strength on the model: in every state satisfying the session invariant with any number of cache levels (listed by increasing bucket size), for every n >= 1 and EVERY pair of bounds, read_n never panics (ordering assert, level selection, estimate_lines incl. its unreachable! arm, seek, read), selects one stored level and returns exactly uniform bucket means (one b >= 1) of that level's stored lines inside the bounds, at most 2n of them, or an empty result / range error when the level has nothing in range (read_n_through_caches, level_selection_total, estimate_total_for_any_seek, unreachable_arm); the level's content is pinned by C08/C09 (cache B = bucketMeans B history). Differential: every stored level decoded independently and the result matched against it (judge ~readnc), caches longer in bytes than finer ones, ranges inside gaps of a cache.",
  "C12": "Kernel-checked on the model under the session invariant: len() = number of accepted lines, range() = first/last timestamp, last time = last line's timestamp, payload size constant; byte-size formula (len_is_count, range_is_first_last, size_formula). After repair / rebuild the invariant is re-established by C04/C05's open theorems (data level). last_line() through the API and is_empty are differential.",
  "C13": "Kernel-checked on the model: read_first_n(n >= 1, range) for EVERY pair of bounds returns the first min(n,k) of the k entries read_all(range) returns (first_n_of_any_range, processor_takes_prefix), and the paging loop of examples/read.rs (continue one past the last timestamp seen) ends within len+3 rounds having collected exactly the history, in order, for EVERY page size n >= 1 (paging_visits_every_line_once). Differential: first-n vs full reads for random ranges, page op for page sizes 1..len+1.",
  "C14": "Kernel-checked on the model for EVERY pair of bounds: n_lines_between is 0 / a range error iff no entry is in range, else k + lines_per_metainfo * m with m <= k sections opened by entries in range (count_consistent, range_bytes).",
